@@ -1,10 +1,10 @@
 package checks
 
 import (
-	"strings"
 	"encoding/json"
 	"fmt"
 	"math/big"
+	"strings"
 	"sync"
 	"time"
 
